@@ -53,6 +53,14 @@ var c09DepPaths = []struct{ Import, Real string }{
 
 const c09Local = "root/cmd"
 
+// where the local package lives and what the Decorator is told its path is: local references must
+// stay bare in all three (the local package may itself be vendored; both sides are vendor-stripped)
+var c09Locals = []struct{ Real, Given string }{
+	{c09Local, c09Local},
+	{"root/vendor/l.org/cmd", "root/vendor/l.org/cmd"},
+	{"root/vendor/l.org/cmd", "l.org/cmd"},
+}
+
 // roles: {Q} is the qualifier ("dep.", "al." or "" for dot-imports)
 var c09Roles = []string{
 	"var r1 = {Q}Fn()",
@@ -101,7 +109,8 @@ type c09Case struct {
 	Style  string `json:"style"`
 	Roles  []int  `json:"roles"`
 	Shadow int    `json:"shadow"`
-	Second bool   `json:"second"` // also import a second package with the same name under an alias
+	Second bool   `json:"second"`          // also import a second package with the same name under an alias
+	Local  int    `json:"local,omitempty"` // index into c09Locals
 	Src    string `json:"src,omitempty"`
 }
 
@@ -152,7 +161,7 @@ func init() {
 	core.Register(&core.Prop{
 		ID:    "C09",
 		Level: "model_checking",
-		Rule: "typed worlds: a dependency under 5 paths (plain, dotted, vendored, nested-vendored, root vendor directory) x import style {plain, alias, dot} x every role of a 28-role catalogue singly x 5 shadowing modes x with/without a second import of an equally named package, and every ordered pair of roles (quick: 2 shadowing modes; thorough: all 5, with/without the second import); " +
+		Rule: "typed worlds: a dependency under 5 paths (plain, dotted, vendored, nested-vendored, root vendor directory) x import style {plain, alias, dot} x every role of a 28-role catalogue singly x 5 shadowing modes x with/without a second import of an equally named package x (single roles) 3 locations of the local package itself (plain; inside a vendor directory with the Decorator told the full path; same, told the stripped path), and every ordered pair of roles (quick: 2 shadowing modes; thorough: all 5, with/without the second import); " +
 			"only files that type-check are in the quantifier; oracle computed from go/types: an identifier carries the vendor-stripped path of its object's package iff the object is a package-level object of another package, else none (qualified selectors collapse onto one identifier); " +
 			"the syntax-only resolver must agree on files without dot-imports and without shadowing, and must return an error for dot-imports and for two imports bound to one name, also when the same resolver instance is asked again about the same file; state = generated file; non-trivial = file with at least one remote reference",
 		Assumptions: []string{"go/types of this toolchain defines what an identifier denotes", "programs range over the role catalogue"},
@@ -188,21 +197,26 @@ func init() {
 						if len(rs) == 2 && !ctx.Thorough() && (sh > 1 || second) {
 							continue // quick tier: role pairs without the extra shadow modes / second import
 						}
-						cs := c09Case{Dep: d, Style: style, Roles: rs, Shadow: sh, Second: second}
-						o, applicable, remote := c09Check(cs)
-						if !applicable {
-							ctx.Count("excluded: generated file does not type-check", 1)
-							if len(rs) == 1 {
-								ctx.Count(fmt.Sprintf("excluded role %d style %s shadow %d", rs[0], style, sh), 1)
+						for local := range c09Locals {
+							if local > 0 && (len(rs) != 1 || second || sh > 1) {
+								continue // the local package's own location: single roles
 							}
-							continue
-						}
-						cs.Src = c09Source(cs)
-						ctx.State(cs.Src, remote > 0)
-						ctx.R.Transitions++
-						ctx.Eval(cs, o)
-						if sh == 1 && len(rs) == 1 && rs[0] == 3 {
-							ctx.Sample(cs)
+							cs := c09Case{Dep: d, Style: style, Roles: rs, Shadow: sh, Second: second, Local: local}
+							o, applicable, remote := c09Check(cs)
+							if !applicable {
+								ctx.Count("excluded: generated file does not type-check", 1)
+								if len(rs) == 1 {
+									ctx.Count(fmt.Sprintf("excluded role %d style %s shadow %d", rs[0], style, sh), 1)
+								}
+								continue
+							}
+							cs.Src = c09Source(cs)
+							ctx.State(fmt.Sprint(local, cs.Src), remote > 0)
+							ctx.R.Transitions++
+							ctx.Eval(cs, o)
+							if sh == 1 && len(rs) == 1 && rs[0] == 3 {
+								ctx.Sample(cs)
+							}
 						}
 					}
 				}
@@ -261,12 +275,12 @@ func c09Check(cs c09Case) (out core.Outcome, applicable bool, remote int) {
 		return core.Outcome{Key: key, Desc: fmt.Sprintf(f, a...) + "\nfile:\n" + src}, true, 1
 	}
 	w := c09World(cs.Dep)
-	chk, err := w.Check(c09Local, map[string]string{"a.go": src})
+	chk, err := w.Check(c09Locals[cs.Local].Real, map[string]string{"a.go": src})
 	if err != nil {
 		return core.Outcome{OK: true}, false, 0
 	}
 	af := chk.Files[0]
-	dec := decorator.NewDecoratorWithImports(chk.Fset, c09Local, gotypes.New(chk.Info.Uses))
+	dec := decorator.NewDecoratorWithImports(chk.Fset, c09Locals[cs.Local].Given, gotypes.New(chk.Info.Uses))
 	var df *dst.File
 	if p := guard(func() { df, err = dec.DecorateFile(af) }); p != "" {
 		return fail("gotypes-panic", "decoration with the types-based resolver panicked: %s", p)
@@ -360,7 +374,7 @@ func c09Check(cs c09Case) (out core.Outcome, applicable bool, remote int) {
 	if err != nil {
 		panic(err)
 	}
-	dec2 := decorator.NewDecoratorWithImports(fset2, c09Local, goast.WithResolver(simple.New(names)))
+	dec2 := decorator.NewDecoratorWithImports(fset2, c09Locals[cs.Local].Given, goast.WithResolver(simple.New(names)))
 	var df2 *dst.File
 	if p := guard(func() { df2, err = dec2.DecorateFile(af2) }); p != "" {
 		return fail("goast-panic", "decoration with the syntax-based resolver panicked: %s", p)
